@@ -160,6 +160,10 @@ class _Builder:
                 a = self.draw(st.sampled_from(block))
                 b = self.draw(st.sampled_from(block))
                 oa, ob = self.draw(st.sampled_from([("+", "-"), ("-", "+"), ("+", "+")]))
+                if a == b and self.draw(st.booleans()) and not any(l[0] == a and l[2] == a for l in self.links):
+                    # a self-link: tandem duplication (+ +) or hairpin (+ -); blocks and articulation points do not change
+                    self.links.append([a, "+", a, "+" if (oa, ob) == ("+", "+") else "-"])
+                    chrom["features"].append("self_link")
                 if a != b and not any(
                     min((l[0], l[1], l[2], l[3]), (l[2], FLIP[l[3]], l[0], FLIP[l[1]]))
                     == min((a, oa, b, ob), (b, FLIP[ob], a, FLIP[oa]))
@@ -193,7 +197,8 @@ def rgfa(draw, min_chroms=1, max_chroms=2, max_elements=5, max_ln=9, min_element
     rnd = random.Random(draw(st.integers(0, 2**30)))
     start = draw(st.sampled_from([0, 0, 6, 95, 996]))
     # segment names are arbitrary non-blank strings: also ids with '.', '-' and '#'
-    b = _Builder(draw, rnd, ["s", draw(st.sampled_from(["utg", "n", "s0", "s1.", "ctg-", "n#"]))], start, max_ln)
+    b = _Builder(draw, rnd, [draw(st.sampled_from(["s", "s", "s", ""])),  # "" = purely numeric ids, as vg / odgi / pggb write them
+                             draw(st.sampled_from(["utg", "n", "s0", "s1.", "ctg-", "n#"]))], start, max_ln)
     b.cycles = cycles
     nchrom = draw(st.integers(min_chroms, max_chroms))
     names = draw(st.permutations(["chr1", "chr2", "chrX", "chr10_alt"]))[:nchrom]
@@ -216,11 +221,17 @@ def rgfa(draw, min_chroms=1, max_chroms=2, max_elements=5, max_ln=9, min_element
 # rendering
 
 
-def gfa_lines(g, with_seq=True, extra_tags=None, link_tags=None):
+_TAG_ORDERS = [(0, 1, 2, 3), (3, 1, 2, 0), (1, 3, 0, 2), (2, 3, 1, 0), (0, 1, 2, 3), (3, 2, 1, 0)]
+
+
+def gfa_lines(g, with_seq=True, extra_tags=None, link_tags=None, tag_order=None):
     """S and L lines (lists of strings, no newline). extra_tags: id -> list of 'TAG:T:V' strings."""
     s_lines = []
-    for n, d in g["nodes"].items():
+    for k_, (n, d) in enumerate(g["nodes"].items()):
         tags = ["LN:i:%d" % d["ln"], "SN:Z:%s" % d["sn"], "SO:i:%d" % d["so"], "SR:i:%d" % d["sr"]]
+        if tag_order is not None:
+            # the order of optional fields on a line is free
+            tags = [tags[i] for i in _TAG_ORDERS[(tag_order + k_) % len(_TAG_ORDERS)]]
         if extra_tags and n in extra_tags:
             tags += list(extra_tags[n])
         s_lines.append("\t".join(["S", n, d["seq"] if with_seq else "*"] + tags))
@@ -234,7 +245,8 @@ def gfa_lines(g, with_seq=True, extra_tags=None, link_tags=None):
 
 
 def gfa_text(g, with_seq=True, extra_tags=None, order_seed=None, header=False, link_tags=None):
-    s_lines, l_lines = gfa_lines(g, with_seq, extra_tags, link_tags)
+    s_lines, l_lines = gfa_lines(g, with_seq, extra_tags, link_tags,
+                                 tag_order=(order_seed if (order_seed is not None and order_seed % 3 == 1) else None))
     lines = s_lines + l_lines
     if order_seed is not None and order_seed % 4 == 3:
         # segments listed end-to-start (descending offsets), links after them: a common layout of hand-assembled files
